@@ -325,7 +325,7 @@ struct WOut {
     cur: (usize, usize),
 }
 
-fn run_program(defs: &Defs, len: usize, shape: Shape, ops: &[Value], merged: bool) -> WOut {
+fn run_program(defs: &Defs, len: usize, shape: Shape, ops: &[Value], mode: u8) -> WOut {
     let mut data = canvas(len);
     let mut flags = vec![];
     let cur;
@@ -344,6 +344,10 @@ fn run_program(defs: &Defs, len: usize, shape: Shape, ops: &[Value], merged: boo
                     w.set_wraps(op["b"].as_bool().unwrap_or(true));
                     flags.push(true)
                 }
+                "cursor" => {
+                    w.set_cursor(Position::new(op["r"].as_u64().unwrap_or(0) as usize, op["c"].as_u64().unwrap_or(0) as usize));
+                    flags.push(true)
+                }
                 "fmt" => {
                     // put_fmt: optional face for the duration of the call, text through utf8_writer()
                     let text: String = vusizes(&op["s"]).iter().filter_map(|c| char::from_u32(*c as u32)).collect();
@@ -353,8 +357,10 @@ fn run_program(defs: &Defs, len: usize, shape: Shape, ops: &[Value], merged: boo
                 }
                 "write" => {
                     let mut chunks: Vec<Vec<u8>> = op["chunks"].as_array().map(|a| a.iter().map(vbytes).collect()).unwrap_or_default();
-                    if merged {
+                    if mode == 1 {
                         chunks = vec![chunks.concat()];
+                    } else if mode == 2 {
+                        chunks = chunks.concat().iter().map(|b| vec![*b]).collect();
                     }
                     let via_utf8 = op["via"].as_str() == Some("utf8");
                     let mut ok = true;
@@ -411,6 +417,7 @@ fn op_coq(defs: &Defs, op: &Value) -> String {
         "cell" => format!("(OCell {})", defs.cell_coq(&defs.cell_from(op))),
         "face" => format!("(OFace {})", face_coq(&face_from(&op["face"]))),
         "wraps" => format!("(OWraps {})", cbool(op["b"].as_bool().unwrap_or(true))),
+        "cursor" => format!("(OCursor {} {})", cnat(op["r"].as_u64().unwrap_or(0) as usize), cnat(op["c"].as_u64().unwrap_or(0) as usize)),
         "write" => {
             let chunks = clist(op["chunks"].as_array().map(|a| a.iter().map(|c| cbytes(&vbytes(c))).collect::<Vec<_>>()).unwrap_or_default());
             if op["via"].as_str() == Some("tty") {
@@ -594,11 +601,6 @@ fn run_w(input: &Value) -> Case {
         .flat_map(|o| o["chunks"].as_array().map(|a| a.iter().flat_map(vbytes).collect::<Vec<u8>>()).unwrap_or_default())
         .collect();
     decode_lenient(&own_bytes, &mut chars);
-    let unsafe_stream = chars.iter().any(|c| char::from_u32(*c).is_none());
-    if unsafe_stream {
-        // recorded as skipped: the empty program is run instead
-        ops.clear();
-    }
     {
         let mut cur = json!({"fg": null, "bg": null, "attrs": 0});
         for o in ops.iter_mut() {
@@ -610,12 +612,13 @@ fn run_w(input: &Value) -> Case {
             }
         }
     }
-    let (r1, r2) = {
+    let (r1, r2, r3) = {
         let d = &defs;
         let o = &ops;
         (
-            catch(std::panic::AssertUnwindSafe(|| run_program(d, len, shape, o, false))),
-            catch(std::panic::AssertUnwindSafe(|| run_program(d, len, shape, o, true))),
+            catch(std::panic::AssertUnwindSafe(|| run_program(d, len, shape, o, 0))),
+            catch(std::panic::AssertUnwindSafe(|| run_program(d, len, shape, o, 1))),
+            catch(std::panic::AssertUnwindSafe(|| run_program(d, len, shape, o, 2))),
         )
     };
     let head = format!(
@@ -647,9 +650,6 @@ fn run_w(input: &Value) -> Case {
         Some(o) => json!({"canvas": o.canvas, "flags": o.flags, "cursor": [o.cur.0, o.cur.1], "shape": [shape.start, shape.end, shape.width, shape.height, shape.row_stride, shape.col_stride]}),
         None => json!("panic"),
     };
-    if unsafe_stream {
-        j["skipped"] = json!("stream decodes to an invalid scalar value (C02); empty program run instead");
-    }
     let multi = ops.iter().any(|o| o["o"] == "write" && o["chunks"].as_array().map(|a| a.len() >= 2).unwrap_or(false));
     let special = chars.iter().any(|c| {
         *c == 9 || *c == 10 || char::from_u32(*c).map(|ch| Cell::new_char(Face::default(), ch).size(&defs.ctx).width != 1).unwrap_or(false)
@@ -663,12 +663,13 @@ fn run_w(input: &Value) -> Case {
         format!("tty={}", ops.iter().any(|o| o["via"].as_str() == Some("tty"))),
         format!("glyphs={}", input["glyphs"].as_bool().unwrap_or(true)),
     ];
-    Case { coq: format!("{} {} {}", head, res(&r1), res(&r2)), json: j, tags, nontrivial: area >= 2 && area < len && (multi || special) && !unsafe_stream }
+    Case { coq: format!("{} {} {} {}", head, res(&r1), res(&r2), res(&r3)), json: j, tags, nontrivial: area >= 2 && area < len && (multi || special) }
 }
 
 // ---------- text layout + render ----------
 struct TOut {
     layout: (usize, usize),
+    nat_h: usize,
     canvas: Vec<u64>,
     dims: (usize, usize),
     vops: Vec<VOp>,
@@ -690,15 +691,29 @@ fn run_text(defs: &Defs, input: &Value, text: &Text) -> TOut {
     let ct = vusizes(&input["ct"]);
     let ct = BoxConstraint::new(Size::new(ct[0], ct[1]), Size::new(ct[2], ct[3]));
     let mut store = ViewLayoutStore::new();
-    let layout = match &as_str {
+    // the height the same text takes at this width when the height is not constrained
+    let nat_h = {
+        let free = BoxConstraint::new(Size::new(0, 0), Size::new(1_000_000, ct.max().width));
+        let mut store2 = ViewLayoutStore::new();
+        match &as_str {
+            Some(s) => s.as_str().layout_new(&defs.ctx, free, &mut store2).expect("layout").size().height,
+            None => text.layout_new(&defs.ctx, free, &mut store2).expect("layout").size().height,
+        }
+    };
+    let mut layout = match &as_str {
         Some(s) => s.as_str().layout_new(&defs.ctx, ct, &mut store).expect("layout"),
         None => text.layout_new(&defs.ctx, ct, &mut store).expect("layout"),
     };
+    // the position a parent view would give the layout
+    let (pr, pc) = (g("pr", 0), g("pc", 0));
+    layout.set_position(Position::new(pr, pc));
     let size = layout.size();
     // canvas and view derived from the reported size: padding around, optional slack, optional transposition
     let pad = vusizes(&input["pad"]);
     let (eh, ew) = (g("eh", 0), g("ew", 0));
-    let (vh, vw) = (size.height + eh, size.width + ew);
+    // "clip": the view is smaller than the rectangle by that much (the layout then sticks out)
+    let (clh, clw) = (g("clh", 0), g("clw", 0));
+    let (vh, vw) = ((pr + size.height + eh).saturating_sub(clh), (pc + size.width + ew).saturating_sub(clw));
     let (mut hh, mut ww) = (pad[0] + vh + pad[2], pad[1] + vw + pad[3]);
     let transposed = input["transposed"].as_bool().unwrap_or(false);
     let mut vops = vec![];
@@ -707,7 +722,15 @@ fn run_text(defs: &Defs, input: &Value, text: &Text) -> TOut {
         vops.push(VOp::T);
     }
     if vh > 0 && vw > 0 {
-        vops.push(VOp::View(Sel::Rng(pad[0] as i64, (pad[0] + vh) as i64), Sel::Rng(pad[1] as i64, (pad[1] + vw) as i64)));
+        if input["chained"].as_bool().unwrap_or(false) {
+            // the same window reached in two steps, with a double transposition in between
+            vops.push(VOp::View(Sel::From(pad[0] as i64), Sel::To((pad[1] + vw) as i64)));
+            vops.push(VOp::T);
+            vops.push(VOp::T);
+            vops.push(VOp::View(Sel::To(vh as i64), Sel::From(pad[1] as i64)));
+        } else {
+            vops.push(VOp::View(Sel::Rng(pad[0] as i64, (pad[0] + vh) as i64), Sel::Rng(pad[1] as i64, (pad[1] + vw) as i64)));
+        }
     } else {
         vops.push(VOp::View(Sel::Rng(0, 0), Sel::Rng(0, 0)));
     }
@@ -724,7 +747,7 @@ fn run_text(defs: &Defs, input: &Value, text: &Text) -> TOut {
     for c in &data {
         defs.cell_nums(c, &mut nums);
     }
-    TOut { layout: (size.height, size.width), canvas: nums, dims: (hh, ww), vops }
+    TOut { layout: (size.height, size.width), nat_h, canvas: nums, dims: (hh, ww), vops }
 }
 
 fn run_t(input: &Value) -> Case {
@@ -749,7 +772,7 @@ fn run_t(input: &Value) -> Case {
             j["impl"] = json!({"layout": [o.layout.0, o.layout.1], "canvas": o.canvas, "dims": [o.dims.0, o.dims.1]});
             (
                 format!(
-                    "CT {} {} {} {} {} {} {} {} {} {} {} (TRes {} {} {})",
+                    "CT {} {} {} {} {} {} {} {} {} {} {} {} {} (TRes {} {} {} {})",
                     cnat(o.dims.0),
                     cnat(o.dims.1),
                     vops_coq(&o.vops),
@@ -761,8 +784,11 @@ fn run_t(input: &Value) -> Case {
                     cnat(ct[1]),
                     cnat(ct[2]),
                     cnat(ct[3]),
+                    cnat(input["pr"].as_u64().unwrap_or(0) as usize),
+                    cnat(input["pc"].as_u64().unwrap_or(0) as usize),
                     cnat(o.layout.0),
                     cnat(o.layout.1),
+                    cnat(o.nat_h),
                     cnums(&o.canvas)
                 ),
                 o.layout.0 * o.layout.1 >= 2,
@@ -773,7 +799,7 @@ fn run_t(input: &Value) -> Case {
             j["impl"] = json!("panic");
             (
                 format!(
-                    "CT 0%nat 0%nat [] {} {} {} {} {} {} {} {} TPanic",
+                    "CT 0%nat 0%nat [] {} {} {} {} {} {} {} {} 0%nat 0%nat TPanic",
                     cbool(input["glyphs"].as_bool().unwrap_or(true)),
                     defs.width_table(&chars),
                     cells,
@@ -885,7 +911,10 @@ fn gen_tty_bytes(rng: &mut Rng, maxitems: usize) -> Vec<u8> {
                     _ => b.extend(b"\x1b[3"),
                 }
             }
-            _ => b.push(*rng.pick(&[0x80u8, 0xFF, 0xC3])),
+            _ => match rng.below(3) {
+                0 => b.extend(*rng.pick(&[&[0xEDu8, 0xA0, 0x80][..], &[0xF4, 0x90, 0x80, 0x80], &[0xF7, 0xBF, 0xBF, 0xBF]])),
+                _ => b.push(*rng.pick(&[0x80u8, 0xFF, 0xC3])),
+            },
         }
     }
     b
@@ -896,7 +925,7 @@ fn gen_defs(rng: &mut Rng) -> (Value, Value) {
     let glyphs: Vec<Value> = (0..ng)
         .map(|_| {
             let n = rng.below(8) as usize;
-            let fb: Vec<u32> = (0..n).map(|_| if rng.chance(1, 5) { *rng.pick(&WIDE) } else if rng.chance(1, 8) { *rng.pick(&ZERO) } else { *rng.pick(&NARROW) }).collect();
+            let fb: Vec<u32> = (0..n).map(|_| if rng.chance(1, 5) { *rng.pick(&WIDE) } else if rng.chance(1, 8) { *rng.pick(&ZERO) } else if rng.chance(1, 8) { *rng.pick(&[10u32, 9, 13]) } else { *rng.pick(&NARROW) }).collect();
             json!({"h": rng.below(3), "w": rng.below(4), "fb": fb})
         })
         .collect();
@@ -927,9 +956,16 @@ fn gen_bytes(rng: &mut Rng, maxchars: usize) -> Vec<u8> {
     if rng.chance(1, 6) && !b.is_empty() {
         // malformed: a stray continuation / invalid lead byte, or a truncated sequence
         let at = rng.below(b.len() as u64 + 1) as usize;
-        match rng.below(3) {
+        match rng.below(5) {
             0 => b.insert(at, *rng.pick(&[0x80u8, 0xBF, 0xFF, 0xF8])),
             1 => b.insert(at, 0xE2),
+            2 | 3 => {
+                // well-shaped sequences that are not scalar values: surrogates, above U+10FFFF
+                let seq: &[u8] = *rng.pick(&[&[0xEDu8, 0xA0, 0x80][..], &[0xED, 0xBF, 0xBF], &[0xF4, 0x90, 0x80, 0x80], &[0xF7, 0xBF, 0xBF, 0xBF]]);
+                for (k, x) in seq.iter().enumerate() {
+                    b.insert(at + k, *x);
+                }
+            }
             _ => {
                 b.truncate(at.max(1));
             }
@@ -1009,7 +1045,7 @@ fn gen_w(rng: &mut Rng, v: &mut Vec<Value>) {
     if rng.chance(1, 12) {
         // every partition of a short byte string, as a family of cases
         let mut b = if tty_case { gen_tty_bytes(rng, 2) } else { gen_bytes(rng, 3) };
-        b.truncate(6);
+        b.truncate(if tty_case { 7 } else { 6 });
         let pre: Vec<Value> = if rng.chance(1, 2) { vec![json!({"o": "face", "face": gen_face_plain_underline(rng)})] } else { vec![] };
         let via = if tty_case { "tty" } else if rng.chance(1, 3) { "utf8" } else { "writer" };
         let n = b.len();
@@ -1031,6 +1067,9 @@ fn gen_w(rng: &mut Rng, v: &mut Vec<Value>) {
     }
     let nops = 1 + rng.below(8) as usize;
     let mut ops = vec![];
+    if rng.chance(1, 4) {
+        ops.push(json!({"o": "wraps", "b": false}));
+    }
     for _ in 0..nops {
         ops.push(match rng.below(12) {
             0..=2 => json!({"o": "char", "c": gen_char(rng, true)}),
@@ -1046,6 +1085,7 @@ fn gen_w(rng: &mut Rng, v: &mut Vec<Value>) {
                 json!({"o": "fmt", "s": chars, "face": if rng.chance(1, 2) { gen_face(rng) } else { Value::Null }})
             }
             7 => json!({"o": "wraps", "b": rng.chance(1, 2)}),
+            9 if rng.chance(1, 2) => json!({"o": "cursor", "r": rng.below(5), "c": rng.below(7)}),
             _ if tty_case && rng.chance(2, 3) => {
                 let b = gen_tty_bytes(rng, 6);
                 let chunks = random_cuts(rng, &b);
@@ -1091,14 +1131,16 @@ fn gen_t(rng: &mut Rng, v: &mut Vec<Value>) {
         cells
     };
     let maxw = 1 + rng.below(12) as usize;
-    let maxh = if rng.chance(1, 8) { rng.below(4) as usize } else { 60 };
+    let maxh = if rng.chance(1, 4) { rng.below(6) as usize } else { 60 };
     let minw = if rng.chance(1, 4) { rng.below(maxw as u64 + 1) as usize } else { 0 };
     let minh = if rng.chance(1, 6) { rng.below(maxh.min(5) as u64 + 1) as usize } else { 0 };
     let pad: Vec<usize> = (0..4).map(|_| rng.below(3) as usize).collect();
     v.push(json!({"k": "t", "glyphs": rng.chance(1, 2), "glyph_defs": gd, "image_defs": id, "cells": cells,
         "str": is_str, "wraps": is_str || rng.chance(2, 3), "ct": [minh, minw, maxh, maxw], "pad": pad,
         "eh": if rng.chance(1, 4) { rng.below(3) } else { 0 }, "ew": if rng.chance(1, 4) { rng.below(3) } else { 0 },
-        "transposed": rng.chance(1, 3)}));
+        "pr": if rng.chance(1, 3) { rng.below(4) } else { 0 }, "pc": if rng.chance(1, 3) { rng.below(4) } else { 0 },
+        "clh": if rng.chance(1, 10) { 1 + rng.below(2) } else { 0 }, "clw": if rng.chance(1, 10) { 1 + rng.below(2) } else { 0 },
+        "chained": rng.chance(1, 4), "transposed": rng.chance(1, 3)}));
 }
 
 pub fn generate(rng: &mut Rng, n: usize, _tier: &str) -> Vec<Value> {
